@@ -33,7 +33,9 @@ impl XorShiftRng {
     }
 
     pub fn next_usize(&mut self, max: usize) -> usize {
-        (self.random() * max as f64) as usize
+        // `random()` can be exactly 1.0 (states close to u64::MAX round up when
+        // converted): the result stays below `max`.
+        ((self.random() * max as f64) as usize).min(max.saturating_sub(1))
     }
 
     pub fn random(&mut self) -> f64 {
